@@ -54,6 +54,19 @@ add("C18", "every accessor executed twice symbolically from an arbitrary constru
     "One inductive step from an arbitrary constructed state (no exception, no store into pre-existing state on any path, fresh results); sequences of any length follow by induction (written).",
     COMMON_NOTE, "DESIGN.md section 6 C18")
 
+add("C13", "whole parse_cvss_from_text executed symbolically with findall replaced by symbolic candidates (real constructors, set semantics through __eq__/__hash__); constructors by summary for the except clause; the candidate pattern (read from source) as an NFA run symbolically over every valid vector; z3 decides",
+    "Totality/soundness/duplicate-freedom: solver verdicts over all choices of up to 3 candidates from a finite alphabet; completeness: solver verdict over all valid v2/v3 vectors that each fully matches the current pattern. re's scanning semantics are trusted (written argument).",
+    COMMON_NOTE, "DESIGN.md section 6 C13")
+add("C16", "ask_interactively executed symbolically (print logged, input() answered from per-(metric, retry) solver variables over a finite answer alphabet), while-loops unrolled to a stated bound; result analysed as a structured string, re-parsed by the real class, official pattern; selectability by sat queries",
+    "All answer sequences over the finite alphabet up to the retry bound, for 4 versions x {mandatory, all}: solver verdicts that the returned vector is exactly the first legal answers (case-insensitive, empty = Not Defined), accepted by the class; each legal value has a selecting answer (sat witness).",
+    COMMON_NOTE, "DESIGN.md section 6 C16")
+add("C17", "cvss_calculator.main() executed symbolically with an argparse recorder stub (flags = solver variables), print logged, interactive entry by summary; output of every (version selection, -v text, -j) case compared with the lines prescribed by the library API; z3 decides reachability of every print and exception",
+    "All flag combinations x a finite list of -v texts x interactive outcomes: no exception escapes on any path (solver verdict); output equality per case with -a/-n universally quantified. The glue code is what the property is about; process-level behaviour only in replays.",
+    COMMON_NOTE, "DESIGN.md section 6 C17")
+add("C19", "effect log of every store / ambient call / print with its path condition over constructors, accessors, from_rh_vector, the parse step from an arbitrary state and the extractor (z3 decides reachability); constructor re-executed under alternative decimal contexts and scores compared by z3",
+    "Decided: ambient decimal context (finite list of rounding modes x precisions) does not change any v2/v3 score for any assignment; no path stores into module-level or ambient state or prints. NOT explored: thread schedules and call histories - they follow from the frame condition by a written non-interference argument; hash seed only via logged hash-order-dependent iterations.",
+    COMMON_NOTE, "DESIGN.md section 6 C19 and section 8")
+
 NA = {
  "C20": "quantifies over nine CPython binaries (2.7 ... 3.13); solver-based checking would need an encoding of those interpreters' semantics, which is not within reach; running a probe under each interpreter is concrete differential testing, a different technique (DESIGN.md section 8)",
 }
